@@ -37,6 +37,8 @@ class U:
         self.expr, self.dim, self.mag = expr, dim, mag
 
 
+SAME_BASE_POWERS = [("au::pow<2>({x})", 2), ("au::pow<3>({x})", 3), ("au::pow<4>({x})", 4), ("au::root<2>({x})", Fraction(1, 2)), ("au::root<3>({x})", Fraction(1, 3)),
+                    ("au::pow<3>(au::root<2>({x}))", Fraction(3, 2)), ("au::pow<2>(au::root<3>({x}))", Fraction(2, 3)), ("au::root<4>({x})", Fraction(1, 4))]
 NAMED_COLLISIONS = {}  # unit expression -> id of its group of indistinguishable named units
 
 
@@ -62,6 +64,12 @@ def unit_pool(units, rnd, n):
     extra.append(U("(au::Seconds{} * au::mag<3>() / au::mag<7>())", s.dim, model.mul(s.mag, model.mag_from_fraction(Fraction(3, 7)))))
     extra.append(U("(au::Hertz{} * au::mag<7>() / au::mag<3>())", hz.dim, model.mul(hz.mag, model.mag_from_fraction(Fraction(7, 3)))))
     extra.append(U("au::UnitProductT<>{}", {}, {}))
+    # powers and roots of ONE base, to be multiplied and divided with each other: the exponents of
+    # the same base meet in the pack product with every pair of (numerator, denominator)
+    for nm in ("Meters", "Feet"):
+        b = by[nm]
+        for spell, e in SAME_BASE_POWERS:
+            extra.append(U(spell.format(x="au::%s{}" % nm), model.power(b.dim, e), model.power(b.mag, e)))
     return pool, extra
 
 
@@ -84,6 +92,11 @@ def type_items(pool, extra, rnd, thorough):
     byexpr = {u.expr: u for u in pool + extra}
     for a, b in special:
         pairs.append((byexpr[a], byexpr[b]))
+    for nm in ("Meters", "Feet"):
+        sp = [s_.format(x="au::%s{}" % nm) for s_, _ in SAME_BASE_POWERS]
+        combos = [(a, b) for a in sp for b in sp if a != b]
+        for a, b in (combos if thorough or nm == "Meters" else rnd.sample(combos, 12)):
+            pairs.append((byexpr[a], byexpr[b]))
     allu = pool + extra
     for _ in range(300 if thorough else 40):
         pairs.append((rnd.choice(allu), rnd.choice(allu)))
